@@ -153,7 +153,8 @@ def fuel_of(machine) -> int:
 def export_machine(machine: MachineNode, ctl: Ctl, *, events: Optional[List[str]] = None,
                    out_tag=None, act_info: Optional[Dict[str, dict]] = None,
                    extra_event_types: Optional[List[str]] = None,
-                   intended_guards: Optional[Dict[str, Any]] = None) -> Rec:
+                   intended_guards: Optional[Dict[str, Any]] = None,
+                   service_kinds: Optional[Dict[str, str]] = None) -> Rec:
     """Returns the definition record and fills ctl.tnames (id(transition) -> name)."""
     out_tag = out_tag or (lambda v: NONE if v is None else str(v))
     scratch = SyncInterpreter(machine)
@@ -297,6 +298,9 @@ def export_machine(machine: MachineNode, ctl: Ctl, *, events: Optional[List[str]
         delayMs=_delays(machine, nodes, scratch),
         invokes={n.id: [Rec(id=i.id, src=i.src or "", hasOnError=bool(i.on_error)) for i in n.invoke] for n in nodes},
         serviceImpl=set(machine.logic.services),
+        # harness convention: "driver" = a coroutine completed by the driver; "ok" / "fail" = a plain callable that has
+        # returned / raised by the time its task first runs
+        serviceKind={k: (v if v in ("ok", "fail") else "driver") for k, v in (service_kinds or {}).items()},
         doneInvokeEv={i.id: f"done.invoke.{i.id}" for n in nodes for i in n.invoke},
         errorInvokeEv={i.id: f"error.platform.{i.id}" for n in nodes for i in n.invoke},
         maxIter=int(getattr(machine, "max_iterations", 1000)),
